@@ -29,7 +29,7 @@ STRUCTS += _random.Random(1800 + __import__('vlib.chglue', fromlist=['SEED']).SE
 NS = len(STRUCTS)
 EDITS = ['identity', 'tighten', 'require', 'forbid', 'retype', 'retype-in-group']
 NE = len(EDITS)
-PATHS = ['parse', 'traversal', 'add_helpers']
+PATHS = ['parse', 'traversal', 'add_helpers', 'parse-flat', 'value-assign']
 NPATHS = len(PATHS)
 NT = 3
 
@@ -127,7 +127,18 @@ def build(v, m, path, profile, extra_segments, strict=False):
         lines.insert(pos, ln)
     if path == 0:
         return parse_message('\r'.join(lines), validation_level=level, message_profile=profile)
-    msg = Message(m, version=v, validation_level=level, reference=profile)
+    if path == 3:
+        return parse_message('\r'.join(lines), validation_level=level, message_profile=profile, find_groups=False)
+    if path == 4:
+        # (the builder's text declares the four standard delimiters; a 2.7+ Message would default to five)
+        msg = Message(m, version=v, validation_level=level, reference=profile,
+                      encoding_chars={'FIELD': '|', 'COMPONENT': '^', 'REPETITION': '~', 'ESCAPE': '\\', 'SUBCOMPONENT': '&',
+                                      'GROUP': '\r', 'SEGMENT': '\r'})
+    else:
+        msg = Message(m, version=v, validation_level=level, reference=profile)
+    if path == 4:
+        msg.value = '\r'.join(lines)       # whole-message assignment: the children come from the parser, the structure from the profile
+        return msg
     msg.msh = lines[0]
     # group membership comes from the parser for nested segments: creation by API uses the top-level segments only
     top_names = [c[0] for c in std(v, m)[1] if c[3] == 'SEG']
@@ -164,7 +175,7 @@ def check(si, edit, t, path, trace=None):
         return True
     kind = EDITS[edit]
     top_only = all(c[3] == 'SEG' for c in std(v, m)[1] if c[2][0] >= 1)
-    if path != 0 and not top_only:
+    if path not in (0, 4) and not top_only:
         # required groups cannot be created conformingly through the top-level helpers alone: parse path only
         return True
     ok = True
@@ -299,6 +310,16 @@ def lookup_errors(trace=None):
                 ok = False
                 if trace is not None:
                     trace.append('%s with %r: raised %r, expected %s' % (how, list(prof), got, exc.__name__))
+    # message names are case-insensitive, with a profile as without
+    for name in ('adt_a01', 'Adt_A01'):
+        try:
+            a, b = Message(name, version='2.5', reference={'ADT_A01': good}), Message(name, version='2.5')
+            same = a.name == b.name == 'ADT_A01'
+        except Exception as e:
+            same = False
+            if trace is not None:
+                trace.append('Message(%r, reference=restating profile) raised %s' % (name, type(e).__name__))
+        ok = ok and same
     legacy = os.path.join(REPO, 'tests', 'profiles', 'old_pharm_h4')
     shipped = os.path.join(REPO, 'tests', 'profiles', 'iti_21')
     if os.path.exists(legacy):
@@ -333,6 +354,115 @@ def lookup_errors(trace=None):
             pass
     return ok
 
+# ---- deep retype: the profile changes the datatype of one SUBCOMPONENT; the child is created in six ways -----------------------
+WAYS = ['parse', 'segment text', 'field text', 'component text', 'traversal assignment', 'traversal .value']
+NWAYS = len(WAYS)
+
+
+def make_deep_profile(v, m, t):
+    """(profile, (seg, fld, comp, sub, new_dt, old_dt, i, j, k)) - the t-th (segment, field, component, subcomponent) chain of a
+    top-level segment that has a single place in the structure, whose subcomponent is an ST/NM leaf"""
+    ref = std(v, m)
+    top = list(ref[1])
+    allnames = B.structure_names(ref)
+    chains = []
+    for a, c in enumerate(top):
+        if c[3] != 'SEG' or c[0] == 'MSH' or allnames.count(c[0]) != 1 or c[1][0] != 'sequence':
+            continue
+        for i, f in enumerate(c[1][1]):
+            if f[1][0] != 'sequence' or f[2][1] == 0:
+                continue
+            for j, cp in enumerate(f[1][1]):
+                if cp[1][0] != 'sequence' or cp[2][1] == 0:
+                    continue
+                for k, sb in enumerate(cp[1][1]):
+                    if sb[1][0] == 'leaf' and sb[1][2] in ('ST', 'NM') and sb[2][1] != 0:
+                        chains.append((a, i, j, k))
+                        break          # one subcomponent per component is enough
+                if len(chains) > 8:
+                    break
+            if len(chains) > 8:
+                break
+        if len(chains) > 8:
+            break
+    if not chains:
+        return None, None
+    a, i, j, k = chains[t % len(chains)]
+    c = top[a]
+    fields = list(c[1][1])
+    f = fields[i]
+    comps = list(f[1][1])
+    cp = comps[j]
+    subs = list(cp[1][1])
+    sb = subs[k]
+    old_dt = sb[1][2]
+    new_dt = 'NM' if old_dt == 'ST' else 'ST'
+    subs[k] = (sb[0], (sb[1][0], sb[1][1], new_dt) + tuple(sb[1][3:]), sb[2], sb[3])
+    comps[j] = (cp[0], (cp[1][0], tuple(subs)) + tuple(cp[1][2:]), cp[2], cp[3])
+    fields[i] = (f[0], (f[1][0], tuple(comps)) + tuple(f[1][2:]), f[2], f[3])
+    top[a] = (c[0], (c[1][0], tuple(fields)) + tuple(c[1][2:]), c[2], c[3])
+    pos = lambda name: int(name.rsplit('_', 1)[1])
+    return {m: (ref[0], tuple(top)) + tuple(ref[2:])}, (c[0], f[0], cp[0], sb[0], new_dt, old_dt, pos(f[0]), pos(cp[0]), pos(sb[0]))
+
+
+def deep_check(si, t, way, level, trace=None):
+    reset_defaults()
+    v, m = STRUCTS[si]
+    profile, info = make_deep_profile(v, m, t)
+    if profile is None:
+        return True
+    seg, fld, comp, sub, new_dt, old_dt, i, j, k = info
+    subtext = '&' * (k - 1) + '1'
+    fieldtext = '^' * (j - 1) + subtext
+    segtext = seg + '|' * i + fieldtext
+    got = []
+    for prof in (profile, None):
+        try:
+            if way == 0:
+                lines = B.message_text(v, m, 'required').split('\r')
+                lines = [ln for ln in lines if ln[:3] != seg]
+                order = B.structure_names(std(v, m))
+                later = order[order.index(seg) + 1:]
+                at = len(lines)
+                for q, have in enumerate(lines[1:], 1):
+                    if have[:3] in later:
+                        at = q
+                        break
+                lines.insert(at, segtext)
+                msg = parse_message('\r'.join(lines), validation_level=2, message_profile=prof)   # (the builder's other lines are for TOLERANT)
+            else:
+                msg = Message(m, version=v, validation_level=level, reference=prof)
+                if way == 1:
+                    setattr(msg, seg.lower(), segtext)
+                elif way == 2:
+                    setattr(getattr(msg, seg.lower()), fld.lower(), fieldtext)
+                elif way == 3:
+                    setattr(getattr(getattr(msg, seg.lower()), fld.lower()), comp.lower(), subtext)
+                elif way == 4:
+                    setattr(getattr(getattr(getattr(msg, seg.lower()), fld.lower()), comp.lower()), sub.lower(), '1')
+                else:
+                    getattr(getattr(getattr(getattr(msg, seg.lower()), fld.lower()), comp.lower()), sub.lower()).value = '1'
+            leaf = getattr(getattr(getattr(getattr(msg, seg.lower()), fld.lower()), comp.lower()), sub.lower())
+            got.append((leaf[0].datatype, msg.to_er7().split('\r')[-1] if way else None))
+        except Exception as e:
+            got.append(('raised %s: %s' % (type(e).__name__, e), None))
+    ok = got[0][0] == new_dt and got[1][0] == old_dt
+    if trace is not None:
+        trace.append('%s %s: profile retypes %s.%s.%s.%s from %s to %s; child created by %s under level %d\n  with the profile: %r\n  without: %r'
+                     % (v, m, seg, fld, comp, sub, old_dt, new_dt, WAYS[way], level, got[0], got[1]))
+    return ok
+
+
+def _ob_deep(si: int, t: int, way: int, level: int) -> bool:
+    """
+    pre: 0 <= si < NS and 0 <= t < NT and 0 <= way < NWAYS and 1 <= level <= 2
+    pre: in_part(si)
+    post: _
+    """
+    si, t, way, level = bsearch(si, NS), bsearch(t, NT), bsearch(way, NWAYS), bsearch(level - 1, 2) + 1
+    with concrete():
+        return deep_check(si, t, way, level)
+
 
 def _ob_edit(si: int, edit: int, t: int, path: int) -> bool:
     """
@@ -365,6 +495,9 @@ def explain(call):
         if m.group(1) == '_ob_edit':
             v = dict(zip(['si', 'edit', 't', 'path'], a)); v.update(kw)
             check(v['si'], v['edit'], v['t'], v['path'], tr)
+        elif m.group(1) == '_ob_deep':
+            v = dict(zip(['si', 't', 'way', 'level'], a)); v.update(kw)
+            deep_check(v['si'], v['t'], v['way'], v['level'], tr)
         else:
             lookup_errors(tr)
     except Exception as e:
@@ -381,11 +514,14 @@ SPEC = {
     'assumptions': ['profiles = standard table entry + one edit of a top-level child (or of one leaf field of a top-level segment)',
                     'conforming messages from harness/builder.py; creation by traversal / add_* covers top-level segments only '
                     '(structures whose required children are all segments)'],
-    'outside': ['profiles not derivable by one edit; edits inside groups; structures outside the slice (%d)' % NS],
+    'outside': ['profiles not derivable by one edit; edits inside groups other than retype-in-group; structures outside the slice (%d)' % NS],
     'stubs': [],
     'obligations': [
         {'name': 'edit', 'fn': '_ob_edit', 'parts': 16, 'cond_timeout': 900, 'path_timeout': 60,
          'bound': '%d structures x edits %r x target t<%d x creation paths %r' % (NS, EDITS, NT, PATHS)},
+        {'name': 'deep', 'fn': '_ob_deep', 'parts': 16, 'cond_timeout': 900, 'path_timeout': 60,
+         'bound': '%d structures x %d subcomponent chains x creation ways %r x both levels: the subcomponent retyped by the profile has '
+                  'the profile\'s datatype (and the standard one without the profile)' % (NS, NT, WAYS)},
         {'name': 'lookup', 'fn': '_ob_lookup', 'parts': 1, 'cond_timeout': 300, 'path_timeout': 60,
          'bound': 'MessageProfileNotFound / LegacyMessageProfile on constructor and parser; shipped iti_21 and old_pharm_h4 profiles'},
     ],
